@@ -383,12 +383,42 @@ def r19g(F):
 			out += guarded_by_call(F, '19.g', k, comp, ['KVStoreSync::write'], 'result', True)
 	return out
 
+def r19h(F):
+	"""lazy clean-up after a consolidating full-monitor write never reaches past the update that was just consolidated: the exclusive upper bound
+	handed to cleanup_in_range is the id of the monitor written (an update with a higher id may already be on disk when the clean-up runs -
+	asynchronous writes complete in any order - and is all that recovery has for it)"""
+	out = []
+	F.calls
+	tgt = [k for k in F.callers_of if k.endswith('MonitorUpdatingPersisterAsyncInner::cleanup_in_range')]
+	n = 0
+	for t in tgt:
+		for cn in sorted({r[0] for r in F.callers_of[t]}):
+			fu = F.func(cn)
+			ex = Expr(fu)
+			for b in sites_call(fu, [t]):
+				a = fu.blocks[b]['t'][2]['args']
+				if len(a) < 4:
+					continue
+				n += 1
+				st, sk = linear(ex.of_operand(a[2]))
+				et, ek = linear(ex.of_operand(a[3]))
+				ids = [v for v, c in et.items() if c == 1 and ('update_id' in v)]
+				ok = len(et) == 1 and len(ids) == 1 and ek <= 0
+				# the lower bound is the upper bound minus the window
+				okl = all(st.get(v) == c for v, c in et.items()) and sk <= ek
+				short = cn.split('::{closure')[0].rsplit('::', 1)[-1]
+				out.append(Result('19.h', ok and okl, ('ok:' if ok and okl else 'range:') + 'cleanup-upper-bound@' + short, '%s cleans update files in [%s%+d, %s%+d) (upper bound must be the id of the monitor just written, lower bound that minus the window)%s' % (short, '+'.join('%s*%d' % (v[-30:], c) for v, c in sorted(st.items())), sk, '+'.join(v[-30:] for v in et), ek, '' if ok and okl else ' - an update newer than the stored monitor can be deleted although it was reported persisted'), 2, where=F.where(cn, fu.line_of(b))))
+	if n < 1:
+		out.append(Result('19.h', False, 'floor:cleanup-ranges', 'no call of cleanup_in_range found', 0))
+	return out
+
 RULES = [
 	('19.a', 'atomic replace: write_all -> sync_all(tmp) -> rename(tmp,dest) -> sync_all(dir) on every path to Ok; only write_version renames/creates', r19a),
 	('19.b', 'versioned write lock: stale versions skip the callback; version recorded only on success; single version counter', r19b),
 	('19.c', 'remove under the write lock with directory sync; read under the read lock; list skips *.tmp', r19c),
 	('19.d', 'MonitorUpdatingPersister: update files are cleaned only behind an Ok full-monitor write; update-vs-full predicate; write issued before any await', r19d),
 	('19.e', 'restart applies exactly the updates newer than the monitor, in order; cleanup deletes exactly the complement', r19e),
+	('19.h', 'lazy clean-up after consolidation is bounded above by the id of the monitor just written', r19h),
 	('19.f', 'KVStore errors are propagated in the persistence paths', r19f),
 	('19.g', 'archive removes the live monitor only after the archive copy was written; Completed only on Ok', r19g),
 ]
